@@ -314,11 +314,16 @@ def weighed(rule_id, sym, deciders):
         ran = {rid for rid, _ in ctx.rules_run}
         decided = all(d in ran for d in deciders) and not any(getattr(e, 'rule', None) in deciders for e in ctx.errors)
         clean = decided and not any((not o.ok) and o.rule in deciders for o in ctx.obligations)
+        dropped = []
         for kind, a, kw in cap.buf:
             if kind == 'ok':
                 ctx.ok(*a, **kw)
-            elif not clean:
-                ctx.violation(*a, **kw)
+            else:
+                o = ctx.violation(*a, **kw)
+                if clean and not getattr(o, 'known', None):      # (a recorded finding is reported wherever it is seen)
+                    ctx.obligations.remove(o)
+                    dropped.append((kind, a, kw))
+        bad = dropped
         if (bad or err is not None) and clean:
             why = err.msg if err is not None else '; '.join(sorted({b[1][2] for b in bad}))[:300]
             ctx.note(rule_id, 'the anchor is not in a shape this rule reads (%s): it stands down; the clause is decided by %s' % (why, ', '.join(deciders)))
